@@ -223,7 +223,8 @@ fn rand_macro_class(rng: &mut Rng) -> LefMacroClass {
     }
 }
 fn rand_symm(rng: &mut Rng) -> Vec<LefSymmetry> {
-    let n = 1 + rng.usize(3);
+    // an empty list ("SYMMETRY ;") is legal and distinct from an absent statement
+    let n = if rng.chance(1, 5) { 0 } else { 1 + rng.usize(3) };
     (0..n).map(|_| pick_t(rng, t_symmetry())).collect()
 }
 pub fn rand_macro(rng: &mut Rng, cfg: &LefCfg, old_version: bool) -> LefMacro {
